@@ -572,9 +572,11 @@ struct Uses {
     p: bool,
     /// slot b is an exponent (powi): drawn from the exponent pool
     bexp: bool,
+    /// slot c is a denominator limit: mostly small (the Farey walk is linear in it)
+    climit: bool,
 }
 
-const U0: Uses = Uses { a: 0, b: 0, c: 0, d: 0, n: NK::None, k: false, s: SK::None, x: false, y: false, p: false, bexp: false };
+const U0: Uses = Uses { a: 0, b: 0, c: 0, d: 0, n: NK::None, k: false, s: SK::None, x: false, y: false, p: false, bexp: false, climit: false };
 impl Uses {
     const fn a(mut self, v: u8) -> Uses {
         self.a = v;
@@ -614,6 +616,11 @@ impl Uses {
     }
     const fn p(mut self) -> Uses {
         self.p = true;
+        self
+    }
+    const fn climit(mut self) -> Uses {
+        self.climit = true;
+        self.c = 1;
         self
     }
     const fn bexp(mut self) -> Uses {
@@ -1126,7 +1133,8 @@ fn int_text(v: &mut Vec<Op>) {
     entry!(v, "int", B, 0, "UBig::from_word/from_dword", U0.k(), |c| (UBig::from_word(c.k128() as u64), UBig::from_dword(c.k128() as u128)), |_d| ret());
     entry!(v, "int", B, 0, "IBig::as_sign_words", U0.a(2), |c| { let x = c.ia(); let (s, w) = x.as_sign_words(); (s, w.len()) }, |_d| ret());
     entry!(v, "int", B, 0, "UBig::to_chunks", U0.a(1).n(NK::Chunk), |c| c.ua().to_chunks(c.nu()), |d| Pre::new().must(d.n == 0, L_CHUNK0, "").done());
-    entry!(v, "int", B, 0, "UBig::to_chunks(usize::MAX)", U0.a(1), |c| c.ua().to_chunks(usize::MAX), |_d| ret());
+    // every chunk buffer is sized by chunk_bits, not by the number: 2^58 words for a 3-word value
+    entry!(v, "int", B, 0, "UBig::to_chunks(usize::MAX)", U0.a(1), |c| c.ua().to_chunks(usize::MAX), |d| Pre::new().known(d.a.mag.trimmed_len() >= 3, "C16/to-chunks-buffer-sized-by-chunk-bits", On::Panic("MAX_CAPACITY")).known(d.a.mag.trimmed_len() >= 3, "C16/to-chunks-buffer-sized-by-chunk-bits", On::HangOrMem).done());
     entry!(v, "int", B, 0, "UBig::from_chunks", U0.a(1).b(1).c(1).n(NK::Chunk), |c| UBig::from_chunks([c.ua(), c.ub(), c.uc()].iter(), c.nu()), |d| Pre::new().must(d.n == 0, L_CHUNK0, "").done());
     entry!(v, "int", B, 0, "UBig::from_chunks (no chunks)", U0.n(NK::Chunk), |c| UBig::from_chunks([].iter(), c.nu()), |d| Pre::new().must(d.n == 0, L_CHUNK0, "").done());
     entry!(v, "int", B, 0, "UBig::from_chunks (one chunk, usize::MAX bits)", U0.a(1), |c| UBig::from_chunks([c.ua()].iter(), usize::MAX), |_d| ret());
@@ -1318,6 +1326,19 @@ fn pre_arith(x: &FV, y: &FV, p: u64, additive: bool) -> Exp {
         .done()
 }
 
+const KF_DIVWIDE: &str = "C16/fbig-div-operator-wide-dividend";
+
+/// FBig `/` operators call repr_div without shortening the dividend (Context::div does): with an
+/// unlimited-precision dividend of more than p + digits(divisor) digits the debug assertion
+/// `lhs.digits() <= self.precision + rhs.digits()` fires
+fn pre_div_op(x: &FV, y: &FV, p: u64, base: u64) -> Exp {
+    let mut e = pre_div(x, y, p, base);
+    if x.finite() && y.finite() && !y.zero && p != 0 && x.digits > p + y.digits {
+        e.known.push(KnownSpec { id: KF_DIVWIDE, on: On::Panic("lhs.digits() <= self.precision + rhs.digits()") });
+    }
+    e
+}
+
 fn pre_div(x: &FV, y: &FV, p: u64, base: u64) -> Exp {
     let fin = x.finite() && y.finite();
     Pre::new()
@@ -1456,6 +1477,36 @@ fn pre_passive(x: &FV) -> Exp {
     Pre::new().unspec(x.inf != 0, L_INFU).done()
 }
 
+/// FBig / Repr -> f32 / f64 in a base that is not a power of two, -38 <= exponent < 0: two known
+/// debug-assertion classes of C06 (predicates as in c06.rs `fbig_panic`)
+fn pre_to_float(x: &FV, base: u64, p: i64) -> Exp {
+    let mut e = Pre::new().unspec(x.extreme(), L_EXT).done();
+    if x.finite() && !x.zero && !base.is_power_of_two() && (-38..0).contains(&x.exp) {
+        let odd = |n: &BigUint| if n.is_zero() { n.clone() } else { n >> n.trailing_zeros().unwrap() as usize };
+        let n = odd(x.sci.n.magnitude());
+        let d = odd(&bpow(base, x.exp.unsigned_abs()));
+        let (nb, db) = (n.bits() as i64, d.bits() as i64);
+        if nb > p + db {
+            e.known.push(KnownSpec { id: "C06/convert-base-div-wide-significand", on: On::Panic("lhs.digits() <= self.precision + rhs.digits()") });
+            // without debug assertions the over-long quotient reaches `significand.try_into().unwrap()`
+            e.known.push(KnownSpec { id: "C06/convert-base-div-wide-significand", on: On::Panic("OutOfBounds") });
+        } else {
+            let q0 = &n / &d;
+            let qb = if q0.is_zero() {
+                ((&n << (db + p - nb) as usize) / &d).bits() as i64
+            } else if (q0.bits() as i64) < p {
+                p
+            } else {
+                q0.bits() as i64
+            };
+            if qb > p {
+                e.known.push(KnownSpec { id: "C06/fbig-to-float-quotient-extra-bit", on: On::Panic("self.significand.bit_len() <=") });
+            }
+        }
+    }
+    e
+}
+
 /// operations that have to materialise digits (printing, conversion to other types)
 fn pre_digits(x: &FV) -> Exp {
     Pre::new().unspec(x.inf != 0, L_INFU).unspec(x.extreme(), L_EXT).unspec(x.far(), L_FAR).heavy(x.far()).done()
@@ -1561,9 +1612,9 @@ macro_rules! f_prim_forms {
         fentry!($v, FP, $B, format!("{} -= {}", $t, $pt), $uses, |$c| { let mut x = $c.fx::<$R, $B>(); x -= $k; x }, |$e| { let x = fv(&$e.x, $B as u64); let k = int_fv(&$kbig, $B as u64); pre_arith(&x, &k, ctx_max(&x, &k), true) });
         fentry!($v, FP, $B, format!("&{} * &{}", $t, $pt), $uses, |$c| &$c.fx::<$R, $B>() * &$k, |$e| { let x = fv(&$e.x, $B as u64); let k = int_fv(&$kbig, $B as u64); pre_arith(&x, &k, ctx_max(&x, &k), false) });
         fentry!($v, FP, $B, format!("{} *= {}", $t, $pt), $uses, |$c| { let mut x = $c.fx::<$R, $B>(); x *= $k; x }, |$e| { let x = fv(&$e.x, $B as u64); let k = int_fv(&$kbig, $B as u64); pre_arith(&x, &k, ctx_max(&x, &k), false) });
-        fentry!($v, FP, $B, format!("{} / {}", $t, $pt), $uses, |$c| $c.fx::<$R, $B>() / $k, |$e| { let x = fv(&$e.x, $B as u64); let k = int_fv(&$kbig, $B as u64); pre_div(&x, &k, ctx_max(&x, &k), $B as u64) });
-        fentry!($v, FP, $B, format!("{} / {}", $pt, $t), $uses, |$c| $k / $c.fx::<$R, $B>(), |$e| { let x = fv(&$e.x, $B as u64); let k = int_fv(&$kbig, $B as u64); pre_div(&k, &x, ctx_max(&x, &k), $B as u64) });
-        fentry!($v, FP, $B, format!("{} /= &{}", $t, $pt), $uses, |$c| { let mut x = $c.fx::<$R, $B>(); x /= &$k; x }, |$e| { let x = fv(&$e.x, $B as u64); let k = int_fv(&$kbig, $B as u64); pre_div(&x, &k, ctx_max(&x, &k), $B as u64) });
+        fentry!($v, FP, $B, format!("{} / {}", $t, $pt), $uses, |$c| $c.fx::<$R, $B>() / $k, |$e| { let x = fv(&$e.x, $B as u64); let k = int_fv(&$kbig, $B as u64); pre_div_op(&x, &k, ctx_max(&x, &k), $B as u64) });
+        fentry!($v, FP, $B, format!("{} / {}", $pt, $t), $uses, |$c| $k / $c.fx::<$R, $B>(), |$e| { let x = fv(&$e.x, $B as u64); let k = int_fv(&$kbig, $B as u64); pre_div_op(&k, &x, ctx_max(&x, &k), $B as u64) });
+        fentry!($v, FP, $B, format!("{} /= &{}", $t, $pt), $uses, |$c| { let mut x = $c.fx::<$R, $B>(); x /= &$k; x }, |$e| { let x = fv(&$e.x, $B as u64); let k = int_fv(&$kbig, $B as u64); pre_div_op(&x, &k, ctx_max(&x, &k), $B as u64) });
     };
 }
 
@@ -1585,7 +1636,7 @@ fn float_ops<R: ModeTag, const B: Word>(v: &mut Vec<Op>) {
     f_bin_forms!(v, A, t, R, B, -, -=, |d| { let (x, y) = (fv(&d.x, B as u64), fv(&d.y, B as u64)); pre_arith(&x, &y, ctx_max(&x, &y), true) });
     f_bin_forms!(v, A, t, R, B, *, *=, |d| { let (x, y) = (fv(&d.x, B as u64), fv(&d.y, B as u64)); pre_arith(&x, &y, ctx_max(&x, &y), false) });
     const D: &str = "float: / % and Euclidean forms";
-    f_bin_forms!(v, D, t, R, B, /, /=, |d| { let (x, y) = (fv(&d.x, B as u64), fv(&d.y, B as u64)); pre_div(&x, &y, ctx_max(&x, &y), B as u64) });
+    f_bin_forms!(v, D, t, R, B, /, /=, |d| { let (x, y) = (fv(&d.x, B as u64), fv(&d.y, B as u64)); pre_div_op(&x, &y, ctx_max(&x, &y), B as u64) });
     f_bin_forms!(v, D, t, R, B, %, %=, |d| { let (x, y) = (fv(&d.x, B as u64), fv(&d.y, B as u64)); pre_rem(&x, &y) });
     fentry!(v, D, B, format!("{t} div_euclid ref.ref"), FXY, |c| (&c.fx::<R, B>()).div_euclid(&c.fy::<R, B>()), |d| pre_euclid(&fv(&d.x, B as u64), &fv(&d.y, B as u64)));
     fentry!(v, D, B, format!("{t} div_euclid val.val"), FXY, |c| c.fx::<R, B>().div_euclid(c.fy::<R, B>()), |d| pre_euclid(&fv(&d.x, B as u64), &fv(&d.y, B as u64)));
@@ -1653,10 +1704,10 @@ fn float_ops<R: ModeTag, const B: Word>(v: &mut Vec<Op>) {
     fentry!(v, Rr, B, format!("{t}::split_at_point"), FX, |c| c.fx::<R, B>().split_at_point(), |d| pre_digits(&fv(&d.x, B as u64)));
     // ---- conversions
     const V: &str = "float: conversions";
-    fentry!(v, V, B, format!("{t}::to_f32"), FX, |c| c.fx::<R, B>().to_f32(), |d| { let x = fv(&d.x, B as u64); Pre::new().unspec(x.extreme(), L_EXT).done() });
-    fentry!(v, V, B, format!("{t}::to_f64"), FX, |c| c.fx::<R, B>().to_f64(), |d| { let x = fv(&d.x, B as u64); Pre::new().unspec(x.extreme(), L_EXT).done() });
-    fentry!(v, V, B, format!("Repr<{B}>::to_f32"), FX, |c| c.rx::<B>().to_f32(), |d| { let x = fv(&d.x, B as u64); Pre::new().unspec(x.extreme(), L_EXT).done() });
-    fentry!(v, V, B, format!("Repr<{B}>::to_f64"), FX, |c| c.rx::<B>().to_f64(), |d| { let x = fv(&d.x, B as u64); Pre::new().unspec(x.extreme(), L_EXT).done() });
+    fentry!(v, V, B, format!("{t}::to_f32"), FX, |c| c.fx::<R, B>().to_f32(), |d| pre_to_float(&fv(&d.x, B as u64), B as u64, 24));
+    fentry!(v, V, B, format!("{t}::to_f64"), FX, |c| c.fx::<R, B>().to_f64(), |d| pre_to_float(&fv(&d.x, B as u64), B as u64, 53));
+    fentry!(v, V, B, format!("Repr<{B}>::to_f32"), FX, |c| c.rx::<B>().to_f32(), |d| pre_to_float(&fv(&d.x, B as u64), B as u64, 24));
+    fentry!(v, V, B, format!("Repr<{B}>::to_f64"), FX, |c| c.rx::<B>().to_f64(), |d| pre_to_float(&fv(&d.x, B as u64), B as u64, 53));
     fentry!(v, V, B, format!("IBig::try_from({t})"), FX, |c| IBig::try_from(c.fx::<R, B>()), |d| { let x = fv(&d.x, B as u64); Pre::new().unspec(x.extreme(), L_EXT).unspec(x.far(), L_FAR).heavy(x.far()).done() });
     fentry!(v, V, B, format!("UBig::try_from({t})"), FX, |c| UBig::try_from(c.fx::<R, B>()), |d| { let x = fv(&d.x, B as u64); Pre::new().unspec(x.extreme(), L_EXT).unspec(x.far(), L_FAR).heavy(x.far()).done() });
     fentry!(v, V, B, format!("{t}::from(UBig)"), U0.a(1), |c| FBig::<R, B>::from(c.ua()), |_d| ret());
@@ -1716,19 +1767,20 @@ fn float_ops<R: ModeTag, const B: Word>(v: &mut Vec<Op>) {
     fentry!(v, P, B, format!("str::parse::<{t}>"), U0.s(SK::Float), |c| c.s.parse::<FBig<R, B>>(), |d| pre_parse_float(&d.s, B as u64));
 }
 
-/// `x << k` adds `times`·k to the exponent of a non-zero finite x
-fn pre_shift(x: &FV, k: i128, times: i128) -> Exp {
+const KF_SHIFT: &str = "C16/float-shift-exponent-overflow-unchecked";
+
+/// `x << k` adds k to the exponent of a non-zero finite x
+fn pre_shift(x: &FV, k: i128, _times: i128) -> Exp {
     let moved = x.exp as i128 + k;
-    let moved_all = x.exp as i128 + times * k;
     let fits = |e: i128| e >= isize::MIN as i128 && e <= isize::MAX as i128;
+    let over = x.finite() && !x.zero && !fits(moved);
     Pre::new()
         .must(x.inf != 0, L_INF, M_INF)
         .unspec(x.extreme(), L_EXT)
-        .must(x.finite() && !x.zero && !fits(moved), L_OVER, "")
-        // C15/fbig-shr-assign-shifts-twice: `>>=` subtracts the count twice, so it can overflow although the result fits
-        .known(times == 2 && x.finite() && !x.zero && fits(moved) && !fits(moved_all), "C15/fbig-shr-assign-shifts-twice", On::Panic("overflow"))
+        .must(over, L_OVER, "")
+        // the exponent is moved with a plain `+=` / `-=`: without overflow checks it wraps
+        .known(over, KF_SHIFT, On::Returns)
         .unspec(x.finite() && !x.zero && fits(moved) && moved.unsigned_abs() > (1 << 60), L_EXT)
-        .unspec(times == 2 && x.finite() && x.zero && !fits(2 * k), L_EXT)
         .done()
 }
 
@@ -1990,7 +2042,7 @@ fn ratio_ops(v: &mut Vec<Op>) {
     entry!(v, "ratio", S, 2, "RBig::simplest_from_float(FBig<Zero,2>)", FX, |c| RBig::simplest_from_float(&c.fx::<mode::Zero, 2>()), |d| pre_digits_ret(&fv(&d.x, 2)));
     entry!(v, "ratio", S, 10, "RBig::simplest_from_float(FBig<HalfAway,10>)", FX, |c| RBig::simplest_from_float(&c.fx::<mode::HalfAway, 10>()), |d| pre_digits_ret(&fv(&d.x, 10)));
     // a zero limit: the code panics with the division-by-zero helper, the rustdoc does not mention it
-    const QL: Uses = U0.a(2).b(1).c(1);
+    const QL: Uses = U0.a(2).b(1).climit();
     entry!(v, "ratio", S, 0, "RBig::nearest", QL, |c| c.q1().nearest(&c.uc()), |d| pre_farey(d, 0));
     entry!(v, "ratio", S, 0, "RBig::next_up", QL, |c| c.q1().next_up(&c.uc()), |d| pre_farey(d, 1));
     entry!(v, "ratio", S, 0, "RBig::next_down", QL, |c| c.q1().next_down(&c.uc()), |d| pre_farey(d, 2));
@@ -2940,6 +2992,17 @@ struct Raw4 {
     e: Int,
     k: Int,
     p: u32,
+    l: Int,
+}
+
+fn limit_edge() -> BoxedStrategy<Int> {
+    prop_oneof![
+        8 => prop::sample::select(vec![0u64, 1, 2, 3, 7, 10, 100, 255, 1000]).prop_map(|w| Int { neg: false, mag: Nat(vec![w]) }),
+        4 => (1u64..5000).prop_map(|w| Int { neg: false, mag: Nat(vec![w]) }),
+        2 => prop::sample::select(vec![1u64 << 16, 1 << 20, (1 << 22) + 1]).prop_map(|w| Int { neg: false, mag: Nat(vec![w]) }),
+        1 => int_edge(),
+    ]
+    .boxed()
 }
 
 fn clamp_counts(c: &mut Case, u: &Uses) {
@@ -2981,7 +3044,7 @@ fn call_strategy(ops: Vec<usize>) -> BoxedStrategy<Case> {
             None => fams.push((f, vec![i])),
         }
     }
-    let raw = (int_edge(), int_edge(), int_edge(), int_edge(), exp_edge(), prim_edge(), prec_edge()).prop_map(|(a, b, c, d, e, k, p)| Raw4 { a, b, c, d, e, k, p });
+    let raw = (int_edge(), int_edge(), int_edge(), int_edge(), exp_edge(), prim_edge(), prec_edge(), limit_edge()).prop_map(|(a, b, c, d, e, k, p, l)| Raw4 { a, b, c, d, e, k, p, l });
     (0..fams.len(), any::<u32>(), raw)
         .prop_flat_map(move |(fi, sel, raw)| {
             let g = &fams[fi].1;
@@ -3000,7 +3063,7 @@ fn call_strategy(ops: Vec<usize>) -> BoxedStrategy<Case> {
                 };
                 c.a = pick(u.a, &raw.a);
                 c.b = if u.bexp { raw.e.clone() } else { pick(u.b, &raw.b) };
-                c.c = pick(u.c, &raw.c);
+                c.c = if u.climit { pick(1, &raw.l) } else { pick(u.c, &raw.c) };
                 c.d = pick(u.d, &raw.d);
                 if u.k {
                     c.k = raw.k.clone();
